@@ -73,6 +73,11 @@ def corpus():
         {"op": "in_ranges_raw", "tag": "corpus-raw", "in": {"t": nested, "chrom": "chr1", "starts": [], "ends": [15, 35], "mode": "inner"}},
         {"op": "in_ranges_raw", "tag": "corpus-raw", "in": {"t": nested, "chrom": "chr2", "starts": [], "ends": [], "mode": "outer"}},
         {"op": "into_ranges", "tag": "corpus-S", "in": {"a": nested, "b": [], "default": "dflt"}},
+        # extension 5c: trim-intersection and subtraction partition the bases of a
+        {"op": "trim_subtract", "tag": "corpus-dual", "in": {"a": nested + [["chr2", 5, 9, "d"]], "b": [["chr1", 15, 50, "x"], ["chr1", 40, 120, "y"]]}},
+        {"op": "trim_subtract", "tag": "corpus-dual", "in": {"a": nested, "b": []}},
+        {"op": "iter_ranges_of_col", "tag": "corpus-itercol", "in": {"a": nested, "b": [], "mode": "outer", "keep_empty": True, "cols": ["chromosome", "start", "end", "gene"], "column": "absent"}},
+        {"op": "iter_ranges_of_col", "tag": "corpus-itercol", "in": {"a": nested, "b": [["chr1", 5, 35, "q"]], "mode": "inner", "keep_empty": True, "cols": ["chromosome", "start", "end", "gene"], "column": "start"}},
         # natural chromosome order != string order (groupby must not sort)
         {"op": "by_ranges", "tag": "corpus-chromorder",
          "in": {"a": [["chr2", 0, 10, "a"], ["chr10", 0, 10, "b"]], "b": [["chr2", 5, 6, "q"], ["chr10", 0, 3, "r"]],
@@ -382,7 +387,61 @@ def gen_cases(rng, tier):
         # (2) representation, call form, chromosome names
         _modify(rng, c, p_rep=0.3 if big else 0.2, p_call=0.3 if big else 0.2, p_chrom=0.25)
     cases += _raw_cases(rng, quick)
+    cases += _dual_cases(rng, quick)
+    cases += _col_cases(rng, quick)
     return cases
+
+
+STD_COLS = ["chromosome", "start", "end", "gene"]
+
+
+def _col_cases(rng, quick):
+    """extension 5c: iter_ranges_of with ANY column name (model c07IterRangesOf): mostly a standard column (gene,
+    chromosome, start, end), in ~35 % a name that is not a column (ValueError at the first next(), gary.py:525, also
+    for an empty `other` or an empty table)"""
+    out = []
+    small = T.small_tables(3, 2, prefix="a") + [[]]
+    smallb = T.small_tables(3, 2, prefix="b") + [[]]
+
+    def column():
+        return rng.choice(["absent", "Gene", "", "log2", "gene "]) if rng.random() < 0.35 else rng.choice(STD_COLS)
+
+    for _ in range(80 if quick else 1200):
+        out.append({"op": "iter_ranges_of_col", "tag": "exh-itercol",
+                    "in": {"a": rng.choice(small), "b": rng.choice(smallb), "mode": rng.choice(("outer", "inner")),
+                           "keep_empty": rng.random() < 0.6, "cols": STD_COLS, "column": column()}})
+    for _ in range(50 if quick else 600):
+        chroms = rng.choice([("chr1",), ("chr1", "chr2")])
+        i = {"a": T.random_table(rng, 25, chroms, prefix="a"), "b": T.random_table(rng, 10, chroms, prefix="b"),
+             "mode": rng.choice(("outer", "inner")), "keep_empty": rng.random() < 0.6, "cols": STD_COLS, "column": column()}
+        if rng.random() < 0.3:
+            i["sub"] = rng.randint(1, 10 ** 6)
+        out.append({"op": "iter_ranges_of_col", "tag": "random-itercol", "in": i})
+    return out
+
+
+def _dual_cases(rng, quick):
+    """extension 5c: a.intersection(b, mode='trim') and a.subtract(b) on the same pair: the two results partition the
+    bases of a on every chromosome (Props/C07Dual.lean), on pairs of small tables and on random nested / abutting /
+    overlapping tables, b also shuffled and on chromosomes missing from a"""
+    out = []
+    small = T.small_tables(3, 3, prefix="a")
+    smallb = T.small_tables(3, 3, prefix="b")
+    for _ in range(80 if quick else 1500):
+        out.append({"op": "trim_subtract", "tag": "exh-dual", "in": {"a": rng.choice(small), "b": rng.choice(smallb)}})
+    for _ in range(60 if quick else 800):
+        chroms = rng.choice([("chr1",), ("chr1", "chr2"), ("chr1", "chr2", "chrX")])
+        a = T.random_table(rng, 30, chroms, prefix="a")
+        b = T.random_table(rng, 12, rng.choice([chroms, chroms[:1], ("chr7",)]), prefix="b")
+        tag = "random-dual"
+        if rng.random() < 0.3:
+            b = _shuffle_queries(rng, b)
+            tag = "random-dual-qorder"
+        i = {"a": a, "b": b}
+        if rng.random() < 0.3:
+            i["sub"] = rng.randint(1, 10 ** 6)
+        out.append({"op": "trim_subtract", "tag": tag, "in": i})
+    return out
 
 
 def _raw_cases(rng, quick):
@@ -548,6 +607,20 @@ def run_impl(case):
         return [_val(x) for x in res]
     a0, a = table("a")
     b0, b = table("b")
+    if op == "iter_ranges_of_col":
+        if list(a.data.columns) != i["cols"]:
+            return {"__error__": "ColumnsMismatch", "msg": f"{list(a.data.columns)} != {i['cols']}"}
+        try:
+            vals = [[str(x) for x in ser] for ser in a.iter_ranges_of(b, i["column"], i["mode"], i["keep_empty"])]
+        except ValueError as exc:
+            return {"raise": type(exc).__name__} if unchanged((a0, a), (b0, b)) else mutated
+        return {"vals": vals} if unchanged((a0, a), (b0, b)) else mutated
+    if op == "trim_subtract":
+        inter = a.intersection(b, mode="trim")
+        sub = a.subtract(b)
+        if type(inter) is not type(a) or type(sub) is not type(a):
+            return {"__error__": "WrongClass", "msg": f"{type(inter).__name__} / {type(sub).__name__} from a {type(a).__name__}"}
+        return {"inter": T.rows_of(inter), "sub": T.rows_of(sub)} if unchanged((a0, a), (b0, b)) else mutated
     out = _run(a, b, op, i, form)
     return out if not chk or unchanged((a0, a), (b0, b)) else mutated
 
